@@ -20,10 +20,14 @@ MaxOf(ty) == S(FALSE, Sub(Pow2(IF Signed(ty) THEN Bits(ty) - 1 ELSE Bits(ty)), O
 MinOf(ty) == IF Signed(ty) THEN S(TRUE, Pow2(Bits(ty) - 1)) ELSE S(FALSE, <<>>)
 InRange(ty, r) == SLe(MinOf(ty), r) /\ SLe(r, MaxOf(ty))
 
-(* "exactness is required up to the resolution of a double (of a single for 8/16-bit targets)":
-   relative tolerance 10^-15 resp. 2*10^-7 of |v| on top of the half-unit rounding band *)
-TolDigits(ty) == IF Bits(ty) <= 16 THEN 7 ELSE 15
-TolMul(ty)    == IF Bits(ty) <= 16 THEN 2 ELSE 1
+(* "exactness is required up to the resolution of a double (of a single for 8/16-bit targets)": an ideal
+   implementation rounds the literal v to the nearest double d (|d - v| <= ulp/2 <= |v| * 2^-53) and then
+   rounds d to an integer.  So r is admissible iff |r - v| <= 1/2 + tol(v) with tol(v) = 1.2e-16 |v|
+   (6e-8 |v| for the single-precision intermediates) -- except that from 2^52 on every double is itself an
+   integer, so only the tolerance remains. *)
+TolDigits(ty) == IF Bits(ty) <= 16 THEN 8 ELSE 17
+TolMul(ty)    == IF Bits(ty) <= 16 THEN 6 ELSE 12
+TwoTo52 == <<4, 5, 0, 3, 5, 9, 9, 6, 2, 7, 3, 7, 0, 4, 9, 6>>
 
 Tiny(v) == v.d = <<>> \/ Len(v.d) + v.e < -30            \* |v| < 10^-30: indistinguishable from zero
 Huge(v) == IntDigits(v) > 25                             \* beyond every integer type by far
@@ -32,8 +36,9 @@ Huge(v) == IntDigits(v) > 25                             \* beyond every integer
 Scale(ty, v)   == (IF v.e < 0 THEN -v.e ELSE 0) + TolDigits(ty)
 VS(ty, v)      == S(v.neg, Shl(v.d, v.e + Scale(ty, v)))
 RS(ty, v, r)   == S(r.neg, Shl(r.d, Scale(ty, v)))
-Band(ty, v)    == Add(Shl(<<5>>, Scale(ty, v) - 1),                                        \* 1/2
-                      MulSmall(Shl(v.d, v.e + Scale(ty, v) - TolDigits(ty)), TolMul(ty)))  \* + tolerance
+AllIntegral(ty, v) == Bits(ty) > 16 /\ Cmp(VS(ty, v).d, Shl(TwoTo52, Scale(ty, v))) >= 0       \* |v| >= 2^52
+Band(ty, v)    == Add(IF AllIntegral(ty, v) THEN <<>> ELSE Shl(<<5>>, Scale(ty, v) - 1),           \* 1/2
+                      MulSmall(Shl(v.d, v.e + Scale(ty, v) - TolDigits(ty)), TolMul(ty)))          \* + tolerance
 (* integer r is an admissible rounding of v *)
 Near(ty, v, r) == Cmp(SSub(RS(ty, v, r), VS(ty, v)).d, Band(ty, v)) <= 0
 (* some admissible rounding of v lies outside the type *)
@@ -111,7 +116,7 @@ FloatFromDecimalOk(lit, obs) ==
     LET v == ParseNRf(lit)  mag == [d |-> v.d, e |-> v.e] IN
     /\ obs.k = "ok"
     /\ obs.cls # "nan"
-    /\ (v.d # <<>> => obs.neg = v.neg)                                   \* sign preserved
+    /\ obs.neg = (lit[1] = 45)                                           \* sign preserved, also for zero (IEEE 754 signed zero)
     /\ CASE obs.cls = "fin"  -> LET cl == CmpMag(mag, ParsePlain(obs.lo))  ch == CmpMag(mag, ParsePlain(obs.hi)) IN
                                 /\ (cl > 0 \/ (cl = 0 /\ obs.even))
                                 /\ (ch < 0 \/ (ch = 0 /\ obs.even))
